@@ -431,11 +431,97 @@ def newEx (U : Unq) (rules : List Rule) : NewRes :=
         | .recursive n => fin (c.addErr (.recursive n)) cs
         | .ok _ _ => fin c cs
 
-/-- `tpl.New(src)` = scan + `parser.ParseFile` + `cl.NewEx`; `scanErrs` is the number of errors the
-scanner reported (they are in the parser's error list, so the compiler is not run). -/
-def tplNew (U : Unq) (ts : List Tok) (scanErrs : Nat) : NewRes :=
+/-- Scanner errors the parser has seen when it stops with `left` of `n` tokens unread: the parser scans
+one token ahead, so these are the errors reported while scanning tokens `0 .. n-left` (`scanErrAt` =
+for every scanner error the index of the token being scanned, `n` for the final EOF). -/
+def scanErrsSeen (scanErrAt : List Nat) (n left : Nat) : Nat := (scanErrAt.filter (· ≤ n - left)).length
+
+/-- `tpl.New(src)` = scan + `parser.ParseFile` + `cl.NewEx`; scanner errors are in the parser's error
+list, so the compiler is not run when there is one. -/
+def tplNew (U : Unq) (ts : List Tok) (scanErrs : List Nat) : NewRes :=
   match parseFile ts with
   | none => .oof
-  | some r => if scanErrs ≠ 0 ∨ r.errs ≠ [] then .parseErr else newEx U r.rules
+  | some r =>
+    if scanErrsSeen scanErrs ts.length r.left ≠ 0 ∨ r.errs ≠ [] then .parseErr else newEx U r.rules
+
+/-! ### tpl.NewEx = FromFile + Relocate (tpl/tpl.go) -/
+
+/-- dynamic type of an error value returned by `FromFile` (positions and messages are not modelled) -/
+inductive GoErr where
+  | plain                          -- any type `Relocate` has no case for: cl.ErrNoDocFound, iox.ErrInvalidSource, I/O errors
+  | scanError                      -- *scanner.Error
+  | scanErrorList                  -- scanner.ErrorList
+  | matcherError                   -- *matcher.Error
+  | errorsList (items : List GoErr) -- errors.List
+  deriving Repr
+
+inductive FromFileRes where
+  | ok
+  | err (e : GoErr)
+  | panic
+  | oof
+  deriving Repr
+
+/-- `errors.List.ToError()` of the compiler's error list: every element is a *matcher.Error -/
+def toError (es : List CErr) : GoErr :=
+  match es with
+  | [_] => .matcherError
+  | _ => .errorsList (es.map fun _ => .matcherError)
+
+/-- `tpl.FromFile(nil, "", src, conf)`: `srcOk = false` means `iox.ReadSourceLocal` failed
+(unsupported source type, nil *bytes.Buffer, reader error, unreadable file). `parser.ParseFile`
+returns the single error itself, or the sorted list when there are several. -/
+def fromFile (U : Unq) (srcOk : Bool) (ts : List Tok) (scanErrs : List Nat) : FromFileRes :=
+  if !srcOk then .err .plain
+  else match parseFile ts with
+    | none => .oof
+    | some r =>
+      let n := scanErrsSeen scanErrs ts.length r.left + r.errs.length
+      if n = 1 then .err .scanError
+      else if n ≠ 0 then .err .scanErrorList
+      else match newEx U r.rules with
+        | .ok _ => .ok
+        | .noDoc => .err .plain
+        | .errs es _ => .err (toError es)
+        | .panic => .panic
+        | .oof => .oof
+        | .parseErr => .panic           -- `newEx` never returns this
+
+open GopModel.Generated.TplToken (relocateHandled relocateDefaultPanics) in
+/-- what `Relocate` does with an error whose dynamic type has no case -/
+def relocateDefault (e : GoErr) : Option GoErr := if relocateDefaultPanics then none else some e
+
+open GopModel.Generated.TplToken (relocateHandled relocateDefaultPanics) in
+mutual
+/-- `tpl.Relocate`; `none` = panic. The case list and the default clause are regenerated from tpl.go. -/
+def relocate : GoErr → Option GoErr
+  | .matcherError =>
+    if relocateHandled.contains "*matcher.Error" then some .scanError   -- &scanner.Error{Pos: pos, Msg: e.Msg}
+    else relocateDefault .matcherError
+  | .errorsList items =>
+    if relocateHandled.contains "errors.List" then (relocateList items).map .errorsList
+    else relocateDefault (.errorsList items)
+  | .scanErrorList =>
+    if relocateHandled.contains "scanner.ErrorList" then some .scanErrorList else relocateDefault .scanErrorList
+  | .scanError =>
+    if relocateHandled.contains "*scanner.Error" then some .scanError else relocateDefault .scanError
+  | .plain => relocateDefault .plain
+/-- `for i, ie := range e { e[i] = Relocate(ie, …) }` -/
+def relocateList : List GoErr → Option (List GoErr)
+  | [] => some []
+  | e :: rest =>
+    match relocate e with
+    | none => none
+    | some e' => (relocateList rest).map (e' :: ·)
+end
+
+/-- `tpl.NewEx(src, filename, line, col)` without RetProc parameters -/
+def tplNewEx (U : Unq) (srcOk : Bool) (ts : List Tok) (scanErrs : List Nat) : FromFileRes :=
+  match fromFile U srcOk ts scanErrs with
+  | .err e =>
+    (match relocate e with
+     | none => .panic
+     | some e' => .err e')
+  | r => r
 
 end GopModel.Tpl
